@@ -2,7 +2,8 @@
    Statements only; every proof is [exact <lemma of C06/Proofs*.v>].
 
    Vocabulary (C06/Model.v): a schedule is a list of events — the locked bodies of Enqueue and
-   Dequeue (atomic: they run under p.lock), the steps of Close, one step of the loop goroutine
+   Dequeue (atomic: they run under p.lock), the steps of the Close call that wins the
+   CompareAndSwap and of any number of further Close calls, one step of the loop goroutine
    between two points where it releases the lock / blocks / reads the clock / touches a channel
    ([EvLoop c pick]: [c] = which ready select case is taken, [pick] = how the heap breaks a tie),
    the callback returning, wg.Done, and a clock advance.  [run v (init_at t) evs = Some s]: the
@@ -93,6 +94,20 @@ Theorem C06_close : forall v t evs s evs' s',
 Proof. exact close_final. Qed.
 Print Assumptions C06_close.
 
+(* Close, every further call (both versions).  A Close call that loses the CompareAndSwap only
+   runs the deferred wg.Wait(); [EvClose2Ret] is that call returning.  At that moment no loop
+   goroutine exists or is on its way out - so no callback is running - and none will run:
+   unconditionally if the stop channel is already closed, and otherwise unless the locked body of
+   an Enqueue/Dequeue that had passed the unlocked stopped test before Close was called runs
+   afterwards (C06/Proofs.v, close2_inflight_enqueue, shows that this corner is real). *)
+Theorem C06_close_every_call : forall v s s1 evs' s',
+  step v s EvClose2Ret = Some s1 -> run v s1 evs' = Some s' ->
+  loop s = LNone /\ exiting s = 0%nat /\ cret s1 = S (cret s) /\
+  (stopch s = true -> executed s' = executed s) /\
+  (Forall not_client evs' -> executed s' = executed s /\ loop s' = LNone).
+Proof. exact close2_final. Qed.
+Print Assumptions C06_close_every_call.
+
 (* No stranding, code after the fix: in every reachable state in which Close has not been called
    and the queue is not empty, a loop goroutine exists and is on a path that looks at the queue
    again (it is not about to exit). *)
@@ -125,7 +140,7 @@ Proof. exact stranding_refuted. Qed.
 Print Assumptions C06_stranding_refuted.
 
 (* Progress 1 (both versions): every internal event (a loop step, a timer delivery, the callback
-   returning, wg.Done, a step of Close) strictly decreases a natural-number measure of the state,
+   returning, wg.Done, a step of Close, a further Close call returning) strictly decreases a natural-number measure of the state,
    so internal events alone cannot go on forever: a run of them is no longer than the measure. *)
 Theorem C06_progress_measure : forall v s e s',
   internal e = true -> step v s e = Some s' -> (measure s' < measure s)%nat.
@@ -138,14 +153,14 @@ Theorem C06_progress_bounded : forall v evs s s',
 Proof. exact internal_runs_bounded. Qed.
 Print Assumptions C06_progress_bounded.
 
-(* Progress 2: in a reachable state where no internal event is enabled, a Close that was called
-   has returned, no goroutine is on its way out, and either there is no loop — and then, in the
+(* Progress 2: in a reachable state where no internal event is enabled, every Close call that
+   was made has returned, no goroutine is on its way out, and either there is no loop — and then, in the
    code after the fix and unless the stop channel is closed, the queue is empty — or the loop
    sleeps on a timer that was armed for the current head of the queue, not before its time, with
    no reset or stop pending; it wakes as soon as the clock reaches that deadline. *)
 Theorem C06_rest : forall v t evs s,
   run v (init_at t) evs = Some s -> at_rest v s ->
-  (close s = CNone \/ close s = CReturned) /\ exiting s = 0%nat /\
+  (close s = CNone \/ close s = CReturned) /\ exiting s = 0%nat /\ cwait s = 0%nat /\
   ((loop s = LNone /\ (v = Fixed -> stopch s = false -> q s = [])) \/
    (exists r dl, loop s = LWaiting r dl /\ q_peek (q s) = Some r /\ reset s = false /\
                  stopch s = false /\ (clock s < dl)%Z /\ (idue r <= dl)%Z)).
